@@ -360,20 +360,25 @@ class Complement(Constructor[CombinatorialClassType, CombinatorialObjectType]):
     def get_terms(
         self, parent_terms: Callable[[int], Terms], subterms: SubTerms, n: int
     ) -> Terms:
-        parent_terms_mapped: Terms = Counter()
-        for param, value in subterms[0](n).items():
-            if value:
-                parent_terms_mapped[self._parent_param_map(param)] += value
+        # The siblings are subtracted in the coordinates of the parent. Only what
+        # remains is mapped to the coordinates of the child: several parameters of
+        # the parent can map to the same parameter of the child, and then they
+        # agree on the objects of that child but not on those of its siblings.
+        remaining_terms: Terms = Counter(
+            {param: value for param, value in subterms[0](n).items() if value}
+        )
         children_terms = subterms[1:]
         for child_terms, param_map in zip(children_terms, self._children_param_maps):
             # we subtract from total
             for param, value in child_terms(n).items():
-                mapped_param = self._parent_param_map(param_map(param))
-                parent_terms_mapped[mapped_param] -= value
-                assert parent_terms_mapped[mapped_param] >= 0
-                if parent_terms_mapped[mapped_param] == 0:
-                    parent_terms_mapped.pop(mapped_param)
-
+                mapped_param = param_map(param)
+                remaining_terms[mapped_param] -= value
+                assert remaining_terms[mapped_param] >= 0
+                if remaining_terms[mapped_param] == 0:
+                    remaining_terms.pop(mapped_param)
+        parent_terms_mapped: Terms = Counter()
+        for param, value in remaining_terms.items():
+            parent_terms_mapped[self._parent_param_map(param)] += value
         return parent_terms_mapped
 
     def get_sub_objects(
